@@ -118,6 +118,36 @@ def _vocabulary(ctx, field, machine, osabi, e_type):
     return _VOCAB[key]
 
 
+_NAMES = {}
+
+
+def _names_of_field(ctx, field, machine, osabi, e_type):
+    """names of the library's enumeration tables (with a registry-confirmed value) that belong to this field in this context"""
+    pre = FIELD_PREFIX.get(field)
+    if pre is None:
+        return []
+    key = (field, machine, osabi, e_type)
+    if key not in _NAMES:
+        EN = ctx.lib('elf.enums')
+        mine = [p for k in (machine, osabi) for ps in [CONTEXT_PREFIX.get(k, {}).get(field, [])] for p in ps]
+        names = set()
+        for n in dir(EN):
+            d = getattr(EN, n)
+            if not (n.startswith('ENUM') and isinstance(d, dict)):
+                continue
+            for name, v in d.items():
+                if not (isinstance(name, str) and name.startswith(pre) and isinstance(v, int)) or v not in _accepted(name):
+                    continue
+                own = [p for p in ALL_CONTEXT_PREFIXES if name.startswith(p)]
+                if own and not any(p in mine for p in own):
+                    continue
+                if field == 'n_type' and (name.startswith('NT_GNU_') == (e_type == 'ET_CORE')):
+                    continue
+                names.add(name)
+        _NAMES[key] = sorted(names)
+    return _NAMES[key]
+
+
 def _context_names(machine, osabi, field, e_type=None):
     """code -> set of names the registries define for it in this processor / OS / file-type context (empty dict: no context-specific names)"""
     out = {}
@@ -189,6 +219,14 @@ def h_decode_elf(ctx):
     n = _check_decode(ctx, where, lambda v: ad._decode(v, C.Container()), _field_bits(ad), signed,
                       prefer=_context_names(cfg['machine'], cfg.get('osabi'), ad.subcon.name, cfg.get('e_type')),
                       named=_vocabulary(ctx, ad.subcon.name, cfg['machine'], cfg.get('osabi'), cfg.get('e_type')))
+    # the other direction ("a standard name selects the standard code"): every name of the library's tables that belongs to this field and
+    # context - also one that shares its code with another name (EM_ECOG1/EM_ECOG1X, DT_ENCODING/DT_PREINIT_ARRAY) - encodes to its registry code
+    for name in _names_of_field(ctx, ad.subcon.name, cfg['machine'], cfg.get('osabi'), cfg.get('e_type')):
+        try:
+            code = ad._encode(name, C.Container())
+        except C.MappingError:
+            code = None
+        ctx.check('%s/name-selects-code/%s' % (where, name), isinstance(code, int) and code in _accepted(name))
     ctx.outcome('ok')
 
 
